@@ -121,7 +121,8 @@ def oracle_geo(ctx):
     # K: the same cases against the binary64 transliteration coq/EllRun.v (blh2xyz on the inputs, xyz2blh on the implementation's
     # own x, y, z), judged in coqc
     terms = []
-    ksel = [k for k in range(len(lines))][::(3 if ctx.quick else 1)]
+    cap = 1500 if ctx.quick else 9000            # evenly spaced sample of the round-trip cases (thorough has > 10^6 of them)
+    ksel = list(range(0, len(lines), max(1, len(lines) // cap)))
     for k in ksel:
         (_, e, b, l, h) = q[k]
         t = lines[k].split()
